@@ -112,6 +112,9 @@ impl ClientPlan {
                 abort_extras: 0,
                 status_currency: None,
                 pace_ms: 0,
+                frame_pause: None,
+                status_codes: 0,
+                intermediate_timeout: None,
             },
             init: ConfigureOutcome::plain(),
             ops,
